@@ -2,6 +2,7 @@
 import re
 
 from sa import rules as R
+from sa import hirq
 from sa.prog import P, Callee, op_place
 
 EXPLANATION = (
@@ -26,6 +27,9 @@ SCOPE = "svgdx::context::Scope"
 
 
 def run(prog, chk):
+    chk.rule(dispatch_by_name_only, prog, chk)
+    from props import C16 as _C16
+    chk.rule(_C16.if_element, prog, chk)  # a reference in `test` resolves to the binding current when the <if> is processed - each time it is processed
     chk.rule(scope_pairing, prog, chk, "A5.scope")
     chk.rule(stack_writers, prog, chk)
     chk.rule(innermost_writes, prog, chk)
@@ -565,3 +569,25 @@ def pops_follow_pushes(prog, chk):
             ok = any(b.dominates(pb, bb) and pb != bb for pb in pushes)
             chk.ob(ok, "A5.pop-after-push", f"{b.short}:pop@{n}", b.where(bb, t.get("line")), "this pop_element is preceded by a push_element on every path", f"{b.short}: a pop_element can be reached on a path that pushed nothing (the push is conditional, the pop is not): the enclosing element's scope is popped instead, and later siblings lose its variables")
     chk.floor("A5.pop-after-push", n, 3, "pop_element call in a function body")
+
+
+
+def dispatch_by_name_only(prog, chk):
+    """which kind of element an element is processed as depends on its name alone: no arm of the dispatcher's match on
+    the name carries a guard.  A guarded arm (`"g" if !context.in_specs => GroupElement`) sends the same element down
+    the generic path in some contexts - where a group opens no variable scope, a loop is not expanded .."""
+    GEN_ = "<svgdx::element::SvgElement as svgdx::transform::EventGen>::generate_events"
+    b = prog.body(GEN_)
+    chk.touch(b)
+    n = 0
+    found = [x for part in prog.hir_expand(prog.hir[b.id]["body"]) for x in hirq.str_matches({"body": part})]
+    for m, arms in found:
+        # the dispatch proper: arms that hand the element to an element-specific generate_events
+        disp = [(ls, a) for ls, a in arms if any(x != hirq.WILD for x in ls) and any(mc.get("name") == "generate_events" for mc in hirq.exprs(a["body"], "MethodCall"))]
+        if len(disp) < 3:
+            continue
+        for ls, a in disp:
+            n += 1
+            names = "/".join(x for x in ls if x != hirq.WILD)
+            chk.ob(a.get("guard") is None, "A15.dispatch-by-name", names, b.where(line=a.get("line") or a["body"].get("line")), f"<{names}> is always processed by its own element type", f"the dispatcher's arm for <{names}> carries a guard: under some condition the element is not processed as a <{names}> but falls through to the generic container / shape path (a <g> there opens no variable scope, a <loop> is copied instead of expanded ..)")
+    chk.floor("A15.dispatch-by-name", n, 8, "name arm of the element dispatcher")
